@@ -20,6 +20,11 @@ partial def parseInstr : Sexp → Option Instr
   | .list [.atom "req", x, n, e] => do pure (.req (← x.nat?) (← n.nat?) (← parseExpr e))
   | .list (.atom "stream" :: x :: n :: e :: lim :: body) => do
       pure (.stream (← x.nat?) (← n.nat?) (← parseExpr e) (← lim.nat?) (← parseInstrs body))
+  -- `bstream`: the consumer drains with `now_or_never()` (a poll with a no-op waker) before awaiting; with a
+  -- contract-abiding stream this is unobservable, so the model treats it as `stream`
+  | .list (.atom "bstream" :: x :: n :: e :: lim :: body) => do
+      pure (.stream (← x.nat?) (← n.nat?) (← parseExpr e) (← lim.nat?) (← parseInstrs body))
+  | .list [.atom "abortcmd", n] => do pure (.abortCmd (← n.nat?))
   | .list (.atom "spawn" :: h :: body) => do pure (.spawn (← h.nat?) (← parseInstrs body))
   | .list [.atom "await", h] => do pure (.await (← h.nat?))
   | .list [.atom "abort", h] => do pure (.abortTask (← h.nat?))
